@@ -35,5 +35,5 @@ There is no network. Do not install anything.
 DELIVERABLES in {out}/ :
   patch.diff  - output of `git -C {wt} diff` (must apply to a clean checkout with `git apply`)
   demo.py     - a standalone demonstration script, run as `PYTHONPATH=<tree> /venv/bin/python demo.py`; it must create its own temporary container (tempfile), exercise the specific situation, and exit 0 printing PASS when the property holds (i.e. on the unpatched tree) and exit 1 printing FAIL plus what went wrong on the patched tree. Deterministic, under 60 seconds.
-  notes.md    - which property it breaks and how, exactly what is needed for the violation to manifest, and the commands you ran with their results (test-suite result at HEAD semantics: same failures only; demo on patched tree: FAIL; demo on clean tree: PASS - verify the clean-tree run by `git -C {wt} stash`, running the demo, then `git -C {wt} stash pop`).
+  notes.md    - which property it breaks and how, exactly what is needed for the violation to manifest, and the commands you ran with their results (test-suite result at HEAD semantics: same failures only; demo on patched tree: FAIL; demo on clean tree: PASS - verify the clean-tree run with `git -C {wt} diff > {out}/patch.diff; git -C {wt} apply -R {out}/patch.diff`, running the demo, then `git -C {wt} apply {out}/patch.diff`; do NOT use `git stash`: the stash is shared between all worktrees of the repository and other people work in other worktrees at the same time).
 Leave the worktree with your patch applied. Finish with a short summary (what you changed, what triggers it, and that the three confirmations succeeded).""")
